@@ -85,9 +85,13 @@ def lemmas_contract_only(text, proved_in):
             elif ch in ')]':
                 depth -= 1
             elif ch == '{' and depth == 0:
-                # a `{` that opens a block expression inside a clause (e.g. `ensures ({ let … })`) is at depth > 0 thanks to the paren
-                o = i
-                break
+                # a `{` that opens a block expression inside a clause (e.g. `ensures ({ let … })`) is at depth > 0 thanks to the paren;
+                # a `match x {` inside a clause is skipped as a whole (the body's brace opens a line in the theory files)
+                if masked[i - 1] != '\n' and re.search(r'\bmatch\b[^{};]*$', masked[m.end():i]):
+                    i = rs.match_brace(masked, i)
+                else:
+                    o = i
+                    break
             i += 1
         c = rs.match_brace(masked, o)
         if 'external_body' in before:
